@@ -341,14 +341,27 @@ impl ControlConnection {
             match row_result {
                 Ok((source, row, cluster_name)) => {
                     let peer = Self::create_peer_from_row(source, row, local_address).await;
-                    (peer, cluster_name)
+                    Ok((peer, cluster_name))
                 }
+                // Only a row that fails to deserialize is an "invalid row". A failure to
+                // obtain the rows at all (the first or a further page could not be fetched)
+                // must fail the whole fetch: skipping it would silently truncate the
+                // topology, and the nodes that happen to be missing would be dropped.
+                Err(
+                    err @ MetadataFetchError {
+                        error:
+                            MetadataFetchErrorKind::NextRowError(NextRowError::NextPageError(_))
+                            | MetadataFetchErrorKind::PrepareError(_)
+                            | MetadataFetchErrorKind::SerializationError(_),
+                        ..
+                    },
+                ) => Err(err),
                 Err(err) => {
                     warn!(
                         "system.peers or system.local has an invalid row, skipping it: {}",
                         err
                     );
-                    (None, None)
+                    Ok((None, None))
                 }
             }
         });
@@ -358,15 +371,16 @@ impl ControlConnection {
             .collect::<Vec<_>>()
             .await
             .into_iter()
-            .fold(
+            .try_fold(
                 (Vec::new(), None),
-                |(mut peers, cluster_name), (peer, name)| {
+                |(mut peers, cluster_name), result| {
+                    let (peer, name) = result?;
                     if let Some(peer) = peer {
                         peers.push(peer);
                     }
-                    (peers, cluster_name.or(name))
+                    Ok::<_, MetadataFetchError>((peers, cluster_name.or(name)))
                 },
-            );
+            )?;
 
         Ok((peers, cluster_name))
     }
